@@ -9,7 +9,7 @@ CONSTANTS
   ValidW = {"w1"}
   ENames = {"HardwareError", "Bogus"}
   KnownE = {"HardwareError"}
-  Texts = {"t1", "tp"}
+  Texts = {"tp"}
   PrefTexts = {"tp"}
   PrefClass = "RangeError"
   PrefRest = "t1"
